@@ -262,6 +262,77 @@ def check_bosonic_threshold_conditioning():
             bad(f"bosonic MeasureThreshold on mode {k}: only outcomes {sorted(seen)} in 40 runs although both have probability > 0.2")
 
 
+def _coh_overlap(g1, g2):
+    return np.exp(-abs(g1) ** 2 / 2 - abs(g2) ** 2 / 2 + np.conj(g1) * g2)
+
+
+def _superposition_observables(cs, gs):
+    """(<n>, <x_phi> for phi = 0, 0.8, pi/2, <x^2>) of sum_k c_k |gamma_k> (coherent states), hbar = 2, closed form"""
+    N = sum(np.conj(cj) * ck * _coh_overlap(gj, gk) for cj, gj in zip(cs, gs) for ck, gk in zip(cs, gs))
+    ev = lambda f: sum(np.conj(cj) * ck * f(gj, gk) * _coh_overlap(gj, gk) for cj, gj in zip(cs, gs) for ck, gk in zip(cs, gs)) / N
+    a = ev(lambda gj, gk: gk)
+    a2 = ev(lambda gj, gk: gk ** 2)
+    n = ev(lambda gj, gk: np.conj(gj) * gk).real
+    out = [n]
+    for phi in (0.0, 0.8, np.pi / 2):
+        out.append(2 * (a * np.exp(-1j * phi)).real)
+    out.append(2 * a2.real + 2 * n + 1)
+    return np.array(out, dtype=float)
+
+
+def check_bosonic_dyne_conditioning():
+    """non-Gaussian states through the dyne measurements of the bosonic simulator: a cat state (even, odd, fractional parity,
+    both representations - the default one has COMPLEX component means) is split on a beamsplitter and one output is
+    measured by post-selected homodyne detection at angles along, across and oblique to the cat axis, or by heterodyne
+    detection; the other output must be left in the conditional state, a superposition of two coherent states whose
+    coefficients are the (closed-form) wavefunctions <x_phi = v | beta> resp. overlaps <mu | beta> of the measured branch;
+    the Fock simulator must agree for homodyne detection.  Observables: <n>, <x_phi> at three angles, <x^2>."""
+    th, ph = np.pi / 4, 0.3
+    t, r = np.cos(th), np.exp(1j * ph) * np.sin(th)
+    cats = [(1.2, 0.0, 0.0, None), (1.0, 0.4, 1.0, None), (0.9, -0.5, 0.5, None), (1.1, 0.2, 0.0, "real")]
+    meas = [("homodyne", 0.0, 0.35), ("homodyne", np.pi / 2, 0.35), ("homodyne", np.pi / 2, -1.3), ("homodyne", 0.7, 0.8), ("homodyne", 0.7, 0.0),
+            ("heterodyne", None, 0.3 + 0.4j), ("heterodyne", None, -0.2j)]
+    for a, cphi, par, rep in cats:
+        alpha = a * np.exp(1j * cphi)
+        for kind, phi, v in meas:
+            EVAL[0] += 1
+            # branches |+-alpha> -> |+-t alpha>_0 |+-r alpha>_1 with coefficients 1, e^{i pi par}
+            cs = []
+            for sgn, c0 in ((1, 1.0), (-1, np.exp(1j * np.pi * par))):
+                beta = sgn * r * alpha
+                if kind == "homodyne":
+                    b = beta * np.exp(-1j * phi)
+                    x0, p0 = 2 * b.real, 2 * b.imag
+                    amp = np.exp(-(v - x0) ** 2 / 4 + 1j * p0 * v / 2 - 1j * x0 * p0 / 4)
+                else:
+                    amp = np.exp(-abs(v) ** 2 / 2 - abs(beta) ** 2 / 2 + np.conj(v) * beta)
+                cs.append(c0 * amp)
+            want = _superposition_observables(cs, [t * alpha, -t * alpha])
+            label = f"Catstate({a}, {cphi}, p={par}{', ' + rep if rep else ''}); BSgate; {kind}{'' if phi is None else f'(phi={phi:.2f})'} of q[1] post-selected on {v}"
+            for backend in (("bosonic", "fock") if kind == "homodyne" else ("bosonic",)):
+                if backend == "fock" and rep:
+                    continue
+                prog = sf.Program(2)
+                with prog.context as q:
+                    (ops.Catstate(a, cphi, par) if backend == "fock" or rep is None else ops.Catstate(a, cphi, par, representation=rep)) | q[0]
+                    ops.BSgate(th, ph) | (q[0], q[1])
+                    if kind == "homodyne":
+                        ops.MeasureHomodyne(phi, select=v) | q[1]
+                    else:
+                        ops.MeasureHeterodyne(select=v) | q[1]
+                try:
+                    st = sf.Engine(backend, backend_options={"cutoff_dim": 26} if backend == "fock" else {}).run(prog).state
+                    n = st.mean_photon(0)[0]
+                    qs = [st.quad_expectation(0, x) for x in (0.0, 0.8, np.pi / 2)]
+                    got = np.array([n] + [e[0] for e in qs] + [qs[0][1] + qs[0][0] ** 2], dtype=complex)
+                except Exception as e:
+                    bad(f"{label} on {backend}: raised {type(e).__name__}: {str(e)[:120]}")
+                    continue
+                tol = 2e-2 if backend == "fock" else 2e-3
+                if not np.allclose(got, want, atol=tol):
+                    bad(f"{label}: {backend} leaves q[0] with (<n>, <x>, <x_0.8>, <p>, <x^2>) = {np.round(got.real, 4).tolist()}, the conditional state has {np.round(want, 4).tolist()}")
+
+
 def check_fock_measure():
     cut = 3
     rng = np.random.RandomState(seed)
@@ -396,7 +467,7 @@ def check_collation():
 
 
 if __name__ == "__main__":
-    for f in (check_gaussian_rng, check_fock_homodyne_rng, check_bosonic_threshold_conditioning, check_fock_measure, check_cross_backend_postselect, check_collation):
+    for f in (check_gaussian_rng, check_fock_homodyne_rng, check_bosonic_threshold_conditioning, check_bosonic_dyne_conditioning, check_fock_measure, check_cross_backend_postselect, check_collation):
         try:
             f()
         except Exception:
